@@ -33,6 +33,11 @@ def run(run, h):
     k = 12 if run.tier == "quick" else 120
     for i in range(k):
         assembled_case(run, h, pts, batch, rng, rp, i)
+    # a forged digit proof at EVERY digit position (the verifier must look at all nine)
+    for j in range(9):
+        assembled_case(run, h, pts, batch, rng, rp, 3, pos=j)
+        assembled_case(run, h, pts, batch, rng, rp, 7, pos=j)
+        assembled_case(run, h, pts, batch, rng, rp, 8, pos=j)
     validate_cases(run, h, pts, batch, rng, rp, rp2)
     generated_params_case(run, h, rng)
     batch.flush()
@@ -116,24 +121,37 @@ def wire_of(pts, dps):
     return "".join(sp_bytes(pts.g1(d["s1"]), pts.g1(d["s2"]), pts.g2(d["C"]), pts.g2(d["T"]), d["rbf"], d["rs"]) for d in dps)
 
 
-def assembled_case(run, h, pts, batch, rng, rp, i):
+def assembled_case(run, h, pts, batch, rng, rp, i, pos=None):
     ctx = rng.randbytes(6)
     c = ctx_chal(ctx)
     kind = ["all_max", "swapped", "random_digits", "foreign_digit_signature", "outside_range_link", "ten_proofs",
-            "eight_proofs", "digit_128_claim"][i % 8]
+            "eight_proofs", "digit_128_claim", "proof_under_attacker_key"][i % 9]
     ds = [rng.randrange(128) for _ in range(9)]
     if kind == "all_max":
         ds = [127] * 9
     claim = list(ds)          # messages the proofs are about
     sigidx = list(ds)         # which published signature each proof is built around
     if kind == "foreign_digit_signature":
-        j = rng.randrange(9)
+        j = rng.randrange(9) if pos is None else pos
         sigidx[j] = (ds[j] + rng.randrange(1, 128)) % 128
     if kind == "digit_128_claim":
-        j = rng.randrange(9)
+        j = rng.randrange(9) if pos is None else pos
         claim[j] = 128          # no signature on 128 was published: use the one on 0 (128 mod 128)
         sigidx[j] = 0
     dps = [craft_digit_proof(rp, claim[j], sigidx[j], c, rng) for j in range(9)]
+    attacker_pos = None
+    if kind == "proof_under_attacker_key":
+        # one digit position carries a proof that is perfectly valid - under a key the attacker generated - on an
+        # arbitrary scalar D (e.g. 128 in the top position gives the value 2^63)
+        attacker_pos = rng.randrange(9) if pos is None else pos
+        D = rng.choice([128, Q - 1, rand_nz(rng)])
+        ax, ay, ag2 = rand_nz(rng), rand_nz(rng), rand_nz(rng)
+        a = rand_nz(rng)
+        bf, kbf, k, r = rand_nz(rng), rand_nz(rng), rand_nz(rng), rand_nz(rng)
+        cp = craft_cp(ag2, [ag2 * ay % Q], [D], bf, kbf, [k], c)
+        s1, s2 = a, a * (ax + ay * D) % Q
+        dps[attacker_pos] = dict(cp, s1=s1 * r % Q, s2=(s2 + s1 * bf) * r % Q, k=k)
+        claim[attacker_pos] = D
     value = sum(claim[j] * 128 ** j for j in range(9))
     ksum = sum(dps[j]["k"] * pow(128, j, Q) for j in range(9)) % Q
     e = (c * value + ksum) % Q
@@ -166,7 +184,7 @@ def assembled_case(run, h, pts, batch, rng, rp, i):
     # the property's predicate: accepted => every digit proof is about a published digit with its own signature,
     # and e is the response for a value in [0, 2^63)
     presented = [(claim[j], sigidx[j]) for j in range(9)] if kind != "swapped" else None
-    genuine = all(claim[j] == sigidx[j] and 0 <= claim[j] < 128 for j in range(9))
+    genuine = all(claim[j] == sigidx[j] and 0 <= claim[j] < 128 for j in range(9)) and attacker_pos is None
     if kind == "swapped":
         v_presented = sum(dps[j]["rs"][0] * pow(128, j, Q) for j in range(9)) % Q
         expect = genuine and v_presented == e
